@@ -228,6 +228,11 @@ def gen_random(n, seed, handler_style=False):
     rng = random.Random(seed)
     for k in range(n):
         pool = [rand_path(rng) for _ in range(rng.randint(1, 6))]
+        if k % 7 == 3:
+            # two different paths of equal length whose 64-bit hashes are equal (the multiset that tells a superseded
+            # entry from a live one is keyed by hash, length AND the string itself): each is a path of its own
+            pre = rng.choice(["", "/home/u", "/x/y"])
+            pool = [pre + "/sqpqjslgoipqkm", pre + "/gjkjqgoskrkion"] + pool[:2] if pre == "" else [pre + "/sqpqjslgoipqkm", pre + "/gjkjqgoskrkion"][::-1] + pool[:1]
         deb = rng.choice([0, 1, 2, 5])
         lines = ["lq_load %d %d %d" % (deb, rng.choice([0, 1, 8]), rng.choice([1, 8, 64]))]
         for _ in range(rng.randint(20, 200) if not handler_style else rng.randint(10, 60)):
